@@ -64,6 +64,9 @@ def presentations(ids, all_perms_upto, seed=0):
         out.append(il)
     if L:
         out.append([L[-1]] + L + [L[0], L[0]])
+        # ascending WITH neighbouring duplicates (what sorted(a + b) of two overlapping selections looks like)
+        m = (len(L) // 2 + seed) % len(L)
+        out.append(L[:m + 1] + [L[m]] + L[m + 1:] + [L[-1]])
     if 1 < len(L) <= all_perms_upto:
         for p in itertools.permutations(L):
             out.append(list(p))
